@@ -78,6 +78,7 @@ type groupResult struct {
 	MS       int64    `json:"ms"`
 
 	// Effective-value probe only.
+	DDRNotServed        bool   `json:"ddr_not_served,omitempty"`
 	SizeBelowConfigured bool   `json:"size_below_configured,omitempty"`
 	Probe               string `json:"probe,omitempty"`
 }
@@ -423,6 +424,7 @@ type scriptParams struct {
 	DNSCheckOK   bool   // check.kv.type is "cache": the DNS-check name must be answered
 	DNSCheckAll  bool   // backend-matrix case: DNS-check names are sent, and must be answered, whatever the store (an error of the store is reported, the query is still answered)
 	KVFault      string // fault mode of the key-value backend
+	DDRExpected  bool   // ddr.enabled with public records: the DDR name must get a NOERROR answer with SVCB records
 	ProfileDev   bool   // send queries from the linked IP of the stub backend's profile device
 	ProviderName string
 	ProviderPK   string
@@ -471,6 +473,29 @@ func runTraffic(servers []liveServer, sp scriptParams, hopeless func() bool) (gr
 						base = append(base, query{dnsCheckName, dns.TypeA, 0})
 					}
 					add("dns-udp", "allowlisted", "all", udpExchanger(srcAllowlisted, addr), base)
+					if sp.DDRExpected && !sp.TimeTouched && !failed {
+						g := groupResult{Group: "ddr", Server: s.Name, Addr: addr, Client: "allowlisted", Require: "all", Sent: 1}
+						var resp *dns.Msg
+						for _, w := range []time.Duration{firstWait, retryWait} {
+							if resp, _ = udpOne(srcAllowlisted, addr, query{ddrName, dns.TypeSVCB, 1232}, w); resp != nil {
+								break
+							}
+							g.Retried++
+						}
+						if resp != nil {
+							g.Answered = 1
+							g.Rcodes = dns.RcodeToString[resp.Rcode]
+							g.Probe = fmt.Sprintf("DDR %s SVCB: rcode=%s answers=%d", ddrName, g.Rcodes, len(resp.Answer))
+							g.DDRNotServed = resp.Rcode != dns.RcodeSuccess || len(resp.Answer) == 0
+						} else {
+							g.Lost = []string{"#0 SVCB " + ddrName}
+						}
+						queries += 1 + g.Retried
+						groups = append(groups, g)
+						if !g.ok() || g.DDRNotServed {
+							failed = true
+						}
+					}
 					if sp.ProfileDev {
 						add("dns-udp", "profile-device", "all", udpExchanger(srcProfileDev, addr), []query{
 							{name("pd1"), dns.TypeA, 0}, {name("pd2"), dns.TypeAAAA, 0}, {name("pd3"), dns.TypeTXT, 0},
